@@ -650,7 +650,7 @@ fn item_strategy(server: bool) -> BoxedStrategy<Item> {
 fn case_strategy(role: Role) -> BoxedStrategy<Case> {
     (
         if matches!(role, Role::V3Server | Role::V3Client) { prop::sample::select(vec![0u16, 1, 2, 3, 4]) } else { prop::sample::select(vec![1u16, 2, 3, 4, 0]) },
-        prop::sample::select(vec![0usize, 64, 1024, 65_535]),
+        prop::sample::select(vec![0usize, 1, 8, 64, 1024, 65_535]),
         prop::collection::vec(item_strategy(role.is_server()), 1..11),
         1u8..5,
         prop::collection::vec(any::<u8>(), 12),
@@ -685,7 +685,7 @@ pub fn run(ctx: &Ctx, started: Instant) -> i32 {
     let report = Report {
         level: "exploration",
         rule: "bursts of 1..10 items (PUBLISH QoS 0/1/2 with payloads 0..1200 bytes, some delivered in 2..3 writes with min_chunk_size 16 so that payloads are streamed; PINGREQ; SUBSCRIBE with a gated handler) written 1..4 at a time, \
-               every handler gated and released in generated order, against the v3 default middleware (max_receive 0..4 x max_receive_size {0,64,1024,65535}), the v5 server and the v5 client (Receive Maximum 1..4, 0 = unlimited). \
+               every handler gated and released in generated order, against the v3 default middleware (max_receive 0..4 x max_receive_size {0,1,8,64,1024,65535}), the v5 server and the v5 client (Receive Maximum 1..4, 0 = unlimited). \
                The v5 peer is conforming (never more than Receive Maximum unacknowledged QoS>0 PUBLISH; SUBSCRIBE may be outstanding too) or exceeds the limit at a generated publish. Oracle: handler overlap and packet bytes \
                within the limits (one packet of slack), 0x93 exactly for the exceeding peer, and at quiescence with all gates open every publish handled, every payload read to its end, everything acknowledged, PINGREQ answered. \
                Non-trivial = the limit was reached (input left unread / publish not yet entered) or the peer exceeded; distinct = (role, limits, item kinds, exceed?, burst)"
